@@ -1771,6 +1771,10 @@ E2E_CORPUS = [
     # dilate-N phases share the mailbox with numbered phases: order to B = dilate-1, 0, 1, 2, dilate-0
     dil_case([1, 2, 3, 4, 0], [False, False]),
     dil_case([1, 0, 3, 2, 4], [True, False]),
+    # two-digit dilate-N phases (a long dilated session: every reconnect costs two or three of them): in order, and with
+    # dilate-10..12 overtaking dilate-0..9
+    dil_case(list(range(15)), [False, False], ndil=13, nmsg=2),
+    dil_case([12, 11, 10] + list(range(10)) + [13, 14], [True, False], ndil=13, nmsg=2),
     # send before code on both sides, everything in order
     dict(kind="e2e", seed=1, deleg=[False, True],
          ops=[["api", 0, "send", "a0"], ["api", 1, "send", "b0"], ["open", 0], ["open", 1],
